@@ -123,6 +123,23 @@ func TestC01(t *testing.T) {
 	w := startWatch(st)
 	defer w.close()
 
+	// (0) the adversarial shapes at 24 and 48 repeated units, before anything else and in
+	// every process: most of them are below 512 bytes, where the 20 s hang rule decides,
+	// so an exponential blow-up ends here as a violation instead of ending a later
+	// stream as "inconclusive" on the first generated input that happens to be larger
+	st.Stream("small-rungs", false, fmt.Sprintf("%d adversarial shapes at 24 and 48 repeated units, both default-field options, run first", len(bigShapes)))
+	for _, sh := range bigShapes {
+		for _, n := range []int{24, 48} {
+			for _, df := range []string{"", "dflt"} {
+				st.Eval()
+				c := mkIn(sh.mk(n), df, 0)
+				if f, _ := checkC01(c, w); f != nil {
+					st.Violate("small-rungs", c, f)
+				}
+			}
+		}
+	}
+
 	sc := streamCfg{fullLen: 3, reducedLen: 4, focusLen: 5, trees: cfg.N(12000, 1000000), strings: cfg.N(20000, 2000000), dfs: []string{"", "dflt"}}
 	if cfg.Thorough() {
 		sc.fullLen, sc.reducedLen, sc.focusLen = 4, 5, 7
